@@ -236,10 +236,24 @@ class Counters(Monitor):
 # ======================================================================================== C02 (+ reuse)
 def match_icall(world, t_i, y_i, t_n):
     """find the completed integrator call that produced the recorded step (t_i,y_i) -> t_n."""
-    best = None
-    for c in world.icalls:
-        if c["depth"] != 0 or not c["ok"]:
+    # index of the completed top-level calls by the value of their start time; icalls only grows, a record is indexed once it is closed
+    idx = world.__dict__.setdefault("_icall_index", {"n": 0, "by_t0": {}, "seen": set()})
+    n = idx["n"]
+    advancing = True
+    for q in range(n, len(world.icalls)):
+        c = world.icalls[q]
+        if c["ok"] is None:
+            advancing = False          # still open: look at it again next time
             continue
+        if c["id"] not in idx["seen"]:
+            idx["seen"].add(c["id"])
+            if c["depth"] == 0 and c["ok"]:
+                idx["by_t0"].setdefault(float(np.asarray(c["t0"], dtype=np.float64)), []).append(c)
+        if advancing:
+            idx["n"] = q + 1
+    best = None
+    cands = idx["by_t0"].get(float(np.asarray(t_i, dtype=np.float64)), [])
+    for c in cands:
         if bitwise_equal(c["t0"], t_i) and bitwise_equal(c["y0"], y_i) and bitwise_equal(np.asarray(c["t0"] + c["dTime"], dtype=t_i.dtype), t_n):
             best = c
     return best
